@@ -449,15 +449,16 @@ Proof.
 Qed.
 
 Lemma c_init_related nl regmap memmap :
-  forallb (fun x => 0 <=? wwidth x) (wires nl) = true -> c_mems_ok nl = true ->
+  wfb nl = true -> c_wfb nl = true ->
   legal_init nl 0 regmap -> legal_cmems nl memmap ->
   RC nl (init_state nl 0 regmap memmap) (c_init nl 0 regmap memmap).
 Proof.
-  intros Hw Hm Hregs Hmems. split.
+  intros Hwf Hcwf Hregs Hmems.
+  destruct (wfb_parts nl Hwf) as [Hw [Hcst _]]. destruct (c_wfb_parts nl Hcwf) as [_ Hm]. split.
   - intros r Hr. unfold c_init, init_state. cbn [cregs sregs]. unfold c_ini.
     apply c_pack_ok; [apply width_nonneg; assumption|]. apply Hregs. assumption.
   - intros m a. unfold c_memval, c_init, init_state. cbn [cmems smems].
-    pose proof (mem_dataw_nonneg nl Hm m) as Hdw.
+    pose proof (mem_dataw_nonneg nl Hw Hcst Hm m) as Hdw.
     destruct (find (fun p => fst p =? m) memmap) as [[k d]|] eqn:Ef.
     + rewrite lassoc_map_ini. unfold assoc_d. destruct (assoc d a) as [v|] eqn:Ea.
       * unfold c_ini. apply c_pack_ok; [assumption|]. apply (Hmems m k d a v Ef Ea).
@@ -474,9 +475,8 @@ Theorem c_refines_spec nl regmap memmap inss :
     (fst (c_run nl (c_init nl 0 regmap memmap) inss)).
 Proof.
   intros Hwf Hcwf Hregs Hmems Hins.
-  destruct (wfb_parts nl Hwf) as [H1 _]. destruct (c_wfb_parts nl Hcwf) as [_ C2].
   pose proof (c_run_refines nl 0 Hwf Hcwf inss _ _
-                (c_init_related nl regmap memmap H1 C2 Hregs Hmems) Hins) as H.
+                (c_init_related nl regmap memmap Hwf Hcwf Hregs Hmems) Hins) as H.
   destruct (run nl 0 (init_state nl 0 regmap memmap) inss) as [vs st'].
   destruct (c_run nl (c_init nl 0 regmap memmap) inss) as [cvs cs'].
   apply H.
